@@ -196,7 +196,10 @@ def run(tier):
             fam, sql, o = meta[m["mismatch"]]
             msg = vlib.re.sub(r"\d+", "#", o.get("msg", "") or "")[:160]
             # the panic site identifies the defect (source file + message, numbers blanked)
-            rep.mismatch({"family": "stmt", "why": m["why"], "observed": o.get("outcome"), "msg": msg},
+            sig = {"family": "stmt", "why": m["why"], "observed": o.get("outcome"), "msg": msg}
+            if o.get("outcome") in ("timeout", "hang") or m["why"] != "outcome":
+                sig["sql"] = vlib.re.sub(r"\d+", "#", sql)[:60]
+            rep.mismatch(sig,
                          {"input_family": fam, "sql": sql[:2000], "observation": {k: v for k, v in o.items() if k != "rows"}})
     errs = sum(1 for l in lines if l["outcome"] == "error")
     rep.cov["distinct_nontrivial"] = errs
